@@ -14,7 +14,7 @@ from .core import cz, clist, cbool
 
 IMPORTS = ("Require Import Hdl21.Base.PyInt Hdl21.Model.C08PassFail Hdl21.Model.C08GenFail Hdl21.Corr.C03 Hdl21.Corr.C08.")
 
-FAULTS = {  # fault class -> (left half-rewritten when it is caught?, repair edit)
+FAULTS = {  # fault class -> is the module left half-rewritten when the fault is caught (caught inside a rewriting pass)?
     "missing": False, "width": False, "orphan": False, "unnamed": False, "cycle": False,
     "arrwidth": True, "badref": True, "anonmissing": True}
 HALF_BASES = {"InstBundleElabPass": "pairp", "ResolvePortRefs": "ref", "BundleFlattener": "bun", "ArrayFlattener": "arrp"}
@@ -546,7 +546,7 @@ def run(run, tier, seed, replay=None):
     run.sample(dict(stream="exhaustive-positions", info=items[5][2], steps=[s.get("err") or s.get("ok") or s.get("edit") for s in outs[5]["steps"]]))
 
     # ---------------------------------------------------------------- structured random histories
-    n = 60 if quick else 2500
+    n = 60 if quick else 1500
     items = []
     for k in range(n):
         r = core.rng(seed, "C08", "random", k)
